@@ -165,7 +165,7 @@ func (e *Environment) SaveGlobals(to io.Writer, maxValueLen int) (int, error) {
 		v := e.store[k]
 		if v.Type() == FUNC {
 			f := v.(Function)
-			if f.Name != nil {
+			if f.Name != nil && f.Name.Literal() == k { // (bound under another name, g=f: saved as g=func f(...){...})
 				// Named function inspect is ready for definition, eg func y(a,b){a+b}.
 				_, err := fmt.Fprintf(to, "%s\n", f.Inspect())
 				if err != nil {
